@@ -203,6 +203,25 @@ func init() {
 			},
 		})
 	}
+	// (deep 5) the time claims of an assertion as the checks read them: oidc.Time.AsTime and the two getters of JWTTokenRequest the checks call
+	// (`claims.GetIssuedAt()`, `claims.GetExpiration()`), regenerated with Go's int64 arithmetic explicit (Wrap64): the hand-written
+	// `Claims.GetIssuedAt / GetExpiration` (Model/Token.lean, = Go.asTime of the claim) that every regenerated check is applied to are
+	// proved equal to them (Proofs/C14Time.lean: timeAsTime_eq, c14_time_getters) - a conversion that goes through int64 nanoseconds
+	// (`time.Unix(0, int64(ts)*int64(time.Second))`) regenerates with `Go.wrap64` and the equation stops checking.
+	extraGroups = append(extraGroups, Group{
+		Out:     "AssertionTime.lean",
+		NS:      "GenC14",
+		Imports: []string{"OidcModel.Model.Token", "OidcModel.Model.Int64C14"},
+		Opens:   []string{"Go", "Hand"},
+		Funcs: []FuncSpec{
+			{File: "pkg/oidc/types.go", Name: "Time.AsTime", Lean: "TimeAsTime", Params: []string{"(ts : Int)"}, Ret: RetVal, RetType: "Int", Wrap64: true,
+				Rename: map[string]string{"time.Time{}": "Go.zeroTime", "time.Unix()": "Go.timeUnix"}},
+			{File: "pkg/oidc/token_request.go", Name: "JWTTokenRequest.GetIssuedAt", Lean: "JWTTokenRequestGetIssuedAt", Params: []string{"(j : Claims)"},
+				Ret: RetVal, RetType: "Int", Wrap64: true, FieldRename: map[string]string{"IssuedAt": "iat"}, GenMethods: map[string]string{"AsTime": "TimeAsTime"}},
+			{File: "pkg/oidc/token_request.go", Name: "JWTTokenRequest.GetExpiration", Lean: "JWTTokenRequestGetExpiration", Params: []string{"(j : Claims)"},
+				Ret: RetVal, RetType: "Int", Wrap64: true, FieldRename: map[string]string{"ExpiresAt": "exp"}, GenMethods: map[string]string{"AsTime": "TimeAsTime"}},
+		},
+	})
 	extraGroups = append(extraGroups, Group{
 		Out:     "AssertionEndpoints.lean",
 		NS:      "GenC14",
